@@ -1,6 +1,7 @@
 package main
 
 import (
+	"sync"
 	"math/rand"
 
 	"github.com/goblimey/go-ntrip/rtcm/utils"
@@ -154,6 +155,39 @@ func c14(args []string) {
 			})
 			ev.Intact = string(before) == string(big[lo:hi])
 			w.Emit(ev)
+		}
+	}
+	// eight callers at once, each with its own buffers (extraction is a function of its arguments, whoever else is calling)
+	{
+		const G = 8
+		evs := make([][]c14Event, G)
+		var wg sync.WaitGroup
+		for g := 0; g < G; g++ {
+			wg.Add(1)
+			go func(g int) {
+				defer wg.Done()
+				lr := rand.New(rand.NewSource(tr.Seed()*977 + int64(g)))
+				for k := 0; k < nr/16; k++ {
+					n := 1 + lr.Intn(64)
+					pos := lr.Intn(100)
+					buf := make([]byte, (pos+n+7)/8+lr.Intn(3))
+					lr.Read(buf)
+					ev := c14Event{Buf: tr.Ints(buf), Pos: pos, Len: n, Cls: "concurrent callers", Intact: true}
+					ev.Panic = tr.Recover(func() {
+						ev.U = tr.Limbs(utils.GetBitsAsUint64(buf, uint(pos), uint(n)))
+						if n >= 2 {
+							ev.S = tr.Limbs(uint64(utils.GetBitsAsInt64(buf, uint(pos), uint(n))))
+						}
+					})
+					evs[g] = append(evs[g], ev)
+				}
+			}(g)
+		}
+		wg.Wait()
+		for g := range evs {
+			for _, ev := range evs[g] {
+				w.Emit(ev)
+			}
 		}
 	}
 	// history: ONE buffer, refilled in place between calls (a read buffer that is reused): every extraction sees
